@@ -258,7 +258,7 @@ def check_results(P: C.Part, r, rs, rx, ry, x, y, fs, opts, kind: str, where: st
             bad("swap-auto", j, f"[y,x] gives (Gxx, Gyy) = ({S['Gxx'][j]!r}, {S['Gyy'][j]!r}) but [x,y] gives (Gyy, Gxx) = ({A['Gyy'][j]!r}, {A['Gxx'][j]!r})")
         if not within("swap Gxy->conj", abs(S["Gxy"][j] - np.conj(A["Gxy"][j])), 2 * c * B["tXY"][j]):
             bad("swap-cross", j, f"[y,x] gives Gxy = {S['Gxy'][j]!r}, expected conj of {A['Gxy'][j]!r} (tol {2 * c * B['tXY'][j]:.3g})")
-        if not (A["Gyx"][j] == np.conj(A["Gxy"][j])):
+        if not abs(A["Gyx"][j] - np.conj(A["Gxy"][j])) <= 4 * U * abs(A["Gxy"][j]):
             bad("Gyx-conj", j, f"Gyx = {A['Gyx'][j]!r} is not the conjugate of Gxy = {A['Gxy'][j]!r}")
         if XX[j] > 0 and YY[j] > 0:
             rr = B["tXX"][j] / XX[j] + B["tYY"][j] / YY[j] + 2 * B["tXY"][j] / math.sqrt(XX[j] * YY[j])
@@ -297,7 +297,7 @@ def check_identities(P: C.Part, A: Dict[str, np.ndarray], sig, rp, where: str, l
             bad("residual-spectrum", f"GyyRx = {A['GyyRx'][j]!r} but Gyy*(1-coh) = {want!r}")
         if not within("|ccoh|^2=coh", abs(abs(A["ccoh"][j]) ** 2 - coh[j]), 1e-12 * coh[j] + 1e-300):
             bad("ccoh", f"|ccoh|^2 = {abs(A['ccoh'][j]) ** 2!r} but coh = {coh[j]!r}")
-        if not (A["Hyx"][j] == np.conj(A["Hxy"][j])):
+        if not abs(A["Hyx"][j] - np.conj(A["Hxy"][j])) <= 4 * U * abs(A["Hxy"][j]):
             bad("Hyx-conj", f"Hyx = {A['Hyx'][j]!r} is not the conjugate of Hxy = {A['Hxy'][j]!r}")
 
 
@@ -382,11 +382,12 @@ def oracle(ctx, intensive: bool = False, hints: List[Dict[str, Any]] = ()) -> C.
     hb = [h["bin"] for h in hints if isinstance(h, dict) and h.get("mode") == "cross" and isinstance(h.get("bin"), dict)]
     if hb:
         check_fake(P, [dict(b, XY=complex(b["XY"])) for b in hb[:50]], float([h for h in hints if "fs" in h][0]["fs"]))
-    n = ctx.scale(196, 2800) * (4 if intensive else 1)
-    sizes = [64, 257, 1000, 2048] if not ctx.thorough else [64, 100, 257, 1000, 2048, 4000, 10007]
+    n = ctx.scale(196, 2100) * (4 if intensive else 1)
+    sizes = [16, 64, 257, 1000, 2048] if not ctx.thorough else [8, 16, 64, 100, 257, 1000, 2048, 4000, 10007]
     for i in range(n):
-        if ctx.time_left() < 25 or len(P.violations) >= MAX_VIOL:
-            P.notes.append("time budget reached" if ctx.time_left() < 25 else "violation cap reached")
+        low = ctx.time_left() < (600 if ctx.thorough else 25)      # thorough: leave the runner well inside its 20 minutes
+        if low or len(P.violations) >= MAX_VIOL:
+            P.notes.append("time budget reached" if low else "violation cap reached")
             break
         kind = PAIR_KINDS[i % len(PAIR_KINDS)]
         N = int(rng.choice(sizes))
